@@ -482,7 +482,7 @@ pub fn words64(r: &mut Rng, n: usize) -> Vec<String> {
 
 /// Returns (detection entries incl. condition, extra documents tailored to the shape).
 pub fn gen_special(r: &mut Rng) -> (Vec<(String, Yaml)>, Vec<Yaml>) {
-    let k = r.below(13);
+    let k = if r.chance(4) { 13 } else { r.below(13) };
     gen_special_kind(r, k)
 }
 
@@ -640,6 +640,27 @@ pub fn gen_special_kind(r: &mut Rng, kind: usize) -> (Vec<(String, Yaml)>, Vec<Y
                 });
                 if r.chance(60) {
                     d.insert(ys("s"), ys(*r.pick(&["a", "x", "b"])));
+                }
+                docs.push(Yaml::Mapping(d));
+            }
+            (det, docs)
+        }
+        13 => {
+            // an or-group over more than 128 distinct fields (one of them used twice): a matrix
+            // whose synthetic column keys are multi-byte characters
+            let n = 130 + r.below(90);
+            let mut rows: Vec<Yaml> = (0..n).map(|i| m1(&format!("w{}", i), ys(&format!("v{}", i)))).collect();
+            let dup = r.below(n);
+            rows.push(m1(&format!("w{}", dup), Yaml::Number(7u64.into())));
+            let cond = *r.pick(&["X", "not X", "of(X, 1)"]);
+            let det = vec![("X".to_string(), Yaml::Sequence(rows)), ("condition".to_string(), ys(cond))];
+            let mut docs = vec![];
+            for _ in 0..4 {
+                let j = if r.chance(70) { 128 + r.below(n - 128) } else { r.below(n) };
+                let mut d = Mapping::new();
+                d.insert(ys(&format!("w{}", j)), if r.chance(75) { ys(&format!("v{}", j)) } else { ys("other") });
+                if r.chance(30) {
+                    d.insert(ys(&format!("w{}", dup)), Yaml::Number(7u64.into()));
                 }
                 docs.push(Yaml::Mapping(d));
             }
